@@ -50,4 +50,43 @@ PROPS = {
     "C17": dict(kinds=TTL, modes=["single"], judge="ACC", quick=300, thorough=10000,
                 theorems=["Verif.Verified.C17", "Verif.Spec.reap_exact"] + LIFT + REFINES_TTL,
                 explain="Theorem Verified.C17: clean_expired_values removes exactly the expired entries and returns the drop in size."),
+    "C10": dict(kinds=["lru", "tlru", "utlru"], modes=["single"], judge="L1", quick=400, thorough=15000,
+                theorems=["Verif.C10_lru_history", "Verif.C10_C16_tlru_history", "Verif.C10_C16_utlru_history",
+                          "Verif.C10_lru", "Verif.C10_tlru", "Verif.C10_utlru", "Verif.Core.steps_of_history"],
+                explain="Theorems C10_lru_history / C10_C16_tlru_history / C10_C16_utlru_history: at every evicting insert of every history the model removes the resident key that is first in the recency ghost (a fold over the atoms: accepted writes and successful non-peek lookups move a key to the end); tie: the implementation agrees with the model on every output, observer and sweep, and a different victim is reported as the failing input."),
+    "C11": dict(kinds=["lfu", "lfuda"], modes=["single"], judge="L1", quick=500, thorough=15000,
+                theorems=["Verif.C11_lfu_history", "Verif.C11_lfu_count", "Verif.C11_lfu_victim", "Verif.C14_lfuda_history",
+                          "Verif.Core.steps_of_history"],
+                explain="Theorems C11_lfu_history (and C14_lfuda_history between aging points): every reported use count equals the count ghost (1 at creation, +1 per accepted update and successful non-peek lookup); the victim's count is minimal."),
+    "C12": dict(kinds=["fifo"], modes=["single"], judge="L1", quick=1200, thorough=30000,
+                theorems=["Verif.C12_fifo_history", "Verif.C12_fifo", "Verif.Core.steps_of_history"],
+                explain="Theorem C12_fifo_history: the victim is first in the insertion-rank ghost (updates/lookups never move a key; re-insertion re-enters at the end)."),
+    "C13": dict(kinds=["mru"], modes=["single"], judge="L1", quick=1200, thorough=30000,
+                theorems=["Verif.C13_mru_history", "Verif.C13_mru", "Verif.Core.steps_of_history"],
+                explain="Theorem C13_mru_history: the victim is last in the recency ghost and the new key becomes last."),
+    "C14": dict(kinds=["lfuda"], modes=["single"], judge="L1", quick=1200, thorough=30000,
+                theorems=["Verif.C14_lfuda_history", "Verif.C14_lfuda_count", "Verif.C14_lfuda_age", "Verif.C14_lfuda_victim",
+                          "Verif.Core.steps_of_history"],
+                explain="Theorem C14_lfuda_history: counts, dynamically_age()'s result and victims follow the aging ghost (idle strictly longer than the tick: count * num / den, timer restarted; at dynamically_age() and before each victim is chosen).",
+                assume=["the aging ratio is num/den with den a power of two and count*num < 2^24, where the C++ float product is exact"]),
+    "C15": dict(kinds=["rr"], modes=["single"], judge="L1", quick=1500, thorough=30000,
+                theorems=["Verif.C15_rr_history", "Verif.C15_rr_victim", "Verif.C15_rr_bijection", "Verif.Core.steps_of_history"],
+                explain="Theorem C15_rr_history: the victim is the resident entry in slot r (the outcome of the random source, r < cap), a prior resident and never the inserted key; in a full cache slot -> resident is a bijection. The implementation's draws are mirrored by the harness (same mt19937 seed through a pinned random_device) and fed to the model; spread is additionally measured.",
+                assume=["std::uniform_int_distribution over mt19937 is uniform (trusted); the harness pins std::random_device"]),
+    "C16": dict(kinds=["tlru", "utlru"], modes=["single"], judge="L1", quick=800, thorough=20000,
+                theorems=["Verif.C10_C16_tlru_history", "Verif.C10_C16_utlru_history", "Verif.C16_tlru", "Verif.C16_utlru",
+                          "Verif.Core.steps_of_history"],
+                explain="Theorems C10_C16_*_history (C16 clause): if some resident entry has expired the removed entry is an expired one and every live entry stays, after any update_ttl sequence."),
+    "C18": dict(kinds=ALL, modes=["c18"], judge="TWIN", quick=150, thorough=5000,
+                theorems=["Verif.Core.C18_preTrivial", "Verif.Lru.preTrivial", "Verif.Mru.preTrivial", "Verif.Fifo.preTrivial",
+                          "Verif.Rr.preTrivial", "Verif.Lfu.preTrivial", "Verif.Lfuda.preTrivial", "Verif.Tlru.preTrivial",
+                          "Verif.Utlru.preTrivial"],
+                explain="Theorem Core.C18_preTrivial (eight caches): a range call leaves the model in exactly the state of its single calls in order and returns their aggregate; ut_map/ut_set: C18_utmap for non-empty ranges and positive TTL. Checked directly on the implementation by twin instances (range vs singles, all later calls compared)."),
+    "C19": dict(kinds=ALL, modes=["c19"], judge="TWIN", quick=150, thorough=5000,
+                theorems=["Verif.C19_lru", "Verif.C19_mru", "Verif.C19_fifo", "Verif.C19_rr", "Verif.C19_lfu", "Verif.C19_lfuda",
+                          "Verif.C19_tlru", "Verif.C19_utlru", "Verif.C19_utmap"],
+                explain="Theorems C19_<container>: a call that by its own result had no effect (peek lookup, miss, rejected insert, erase of an absent key) leaves the model state exactly as it was (six non-TTL caches), or removes only entries that had already expired (tlru/utlru), or does exactly what the per-call purge does (ut_map/ut_set). PARTIAL for the four TTL containers: that two states differing only by already-expired entries answer every later call alike except size()/erase/update-only results is checked on the implementation by the twin runs, not proved. Checked directly on the implementation by twin instances (H vs H with no-effect calls spliced in)."),
+    "C20": dict(kinds=["utlru", "utmap"], modes=["c20"], judge="TWIN", quick=600, thorough=20000,
+                theorems=["Verif.C20_utlru", "Verif.C20_utmap"],
+                explain="Theorems C20_utlru / C20_utmap: clear() leaves exactly the state of a newly constructed container with the same capacity and the configured TTL; checked on the implementation by twin instances (after clear vs fresh, same continuation)."),
 }
